@@ -168,12 +168,54 @@ def c18_mixed_worker(kp, job):
                                    key=(text,), sample={'text': text} if idx % 31 == 0 else None)]}
 
 
+def c18_bbox_worker(kp, job):
+    """bounding-box cells (the same cell text in several columns and lines, other boxes of the same page after them) in
+    columns of one spine type: every box token carries the page and the rectangle it carries when the same rows stand
+    under **kern"""
+    seed, idx = job
+    rng = random.Random(seed * 236887699 + idx)
+    T = ['**text', '**dynam', '**dyn', '**harm', '**mxhm', '**fing', '**silbe'][idx % 7]
+    ncols = rng.randint(2, 3)
+    boxes = [f'*xywh-p{rng.randint(1, 2)}:{rng.randint(0, 50)},{rng.randint(0, 90)},{rng.randint(10, 300)},{rng.randint(10, 90)}' for _ in range(3)]
+    rows = []
+    for k in range(rng.randint(3, 6)):
+        b0 = rng.choice(boxes)
+        rows.append([b0 if rng.random() < 0.7 else rng.choice(boxes) for _ in range(ncols)])
+        rows.append([('data', rng.randrange(5)) for _ in range(ncols)])
+    def build(h):
+        vocab = ['4c', '4d', '4e', '4f', '.'] if h == '**kern' else ['la', 'p', '1', 'I', '.']
+        lines = ['\t'.join([h] * ncols)] + ['\t'.join(vocab[c[1]] if isinstance(c, tuple) else c for c in r) for r in rows] + ['\t'.join(['*-'] * ncols)]
+        return '\n'.join(lines) + '\n'
+    viol = []
+    w = {'text': build(T)}
+    try:
+        dk, _ = kp.loads(build('**kern'))
+        dt, _ = kp.loads(build(T))
+        def rects(doc):
+            out = []
+            for st in doc.tree.stages:
+                for nd in st:
+                    t = nd.token
+                    if type(t).__name__ == 'BoundingBoxToken':
+                        bb = t.bounding_box
+                        out.append((t.encoding, t.page_number, bb.from_x, bb.from_y, bb.to_x, bb.to_y))
+            return out
+        rk, rt = rects(dk), rects(dt)
+        if rk != rt:
+            k = next((i for i in range(min(len(rk), len(rt))) if rk[i] != rt[i]), min(len(rk), len(rt)))
+            viol.append(('shared-structure', f'{T}: bounding-box token {k} is {rt[k] if k < len(rt) else None}, under **kern the same cell is {rk[k] if k < len(rk) else None}', w))
+    except Exception as e:
+        viol.append(('never-fails', f'{T}: a document with bounding boxes does not import: {type(e).__name__}', w))
+    return {'records': [engine.rec('bbox', viol=viol, kind='bbox:' + T, key=('bbox', build(T)))]}
+
+
 def c18_document_level(chk, b):
     model = core.Model() if b.modelrun_ok else None
     full = chk.tier == 'thorough' or bool(b.drift) or not b.proof_ok or not b.modelrun_ok
     n = core.budget(chk, full, 14, 120)
     results = engine.pmap(c18_worker, [(chk.seed, i) for i in range(n)])
     results += engine.pmap(c18_mixed_worker, [(chk.seed, i) for i in range(core.budget(chk, full, 60, 400))])
+    results += engine.pmap(c18_bbox_worker, [(chk.seed, i) for i in range(core.budget(chk, full, 28, 210))])
     engine.settle(chk, results, model)
     chk.rule += ('; mixed documents: a **kern spine with splits / joins left of 2-3 non-kern spines of different types sharing one '
                  'vocabulary, every cell a token of its own spine\'s type; document level: generated **kern documents whose one column is presented under **text, **dynam, **dyn, **harm, '
